@@ -712,7 +712,9 @@ void exec_op(World& w, const Op& op) {
       break;
     }
     case kAStrSet: {
-      std::string t = gen_text(uint64_t(op.a[1]), size_t(op.a[0]) % 48);
+      // lengths around the embedded / arena-allocated boundary of ArenaString<16> (11 characters) and well beyond it
+      size_t alen = (op.a[3] & 1) ? size_t(7 + uint64_t(op.a[1]) % 9) : size_t(uint64_t(op.a[1]) % 48);
+      std::string t = gen_text(uint64_t(op.a[2]), alen);
       Error e = w.astr.set_data(arena, t.data(), (op.a[2] & 1) ? SIZE_MAX : t.size());
       if (e == Error::kOk) w.astr_model = t;
       SIM_CHECK(w.astr.size() == w.astr_model.size() && memcmp(w.astr.data(), w.astr_model.data(), w.astr_model.size()) == 0, "c18:arenastring", "ArenaString differs from the model after set_data");
